@@ -72,9 +72,9 @@ def parseOffset (dp : Bytes) (sep : UInt8) : Option (Bytes × Int) :=
             let (w3, lo3, hi3) := Gen.parseOff_seconds
             let bp1 := if sep ≠ 0 ∧ peek bp = sep then bp.drop 1 else bp
             match parseInt32 bp1 w3 lo3 hi3 with
-            | some (cp, seconds) => if bp1.length - cp.length = 2 then (cp, minutes, seconds) else (bp, minutes, seconds)
+            | some (cp, seconds) => if bp1.length - cp.length = 2 then (cp, minutes, seconds) else (bp, minutes, 0)
             | none => (bp, minutes, 0)
-          else (ap, minutes, 0)
+          else (ap, 0, 0)        -- a group that is not consumed does not count
         | none => (ap, 0, 0)
       let off := ((hours * 60 + minutes) * 60) + seconds
       some (dpM, if first = 45 then -off else off)
